@@ -39,8 +39,10 @@ ASSUMPTIONS = [
     "a MonoTimer checks for a retrograde clock on every operation (reads, restart, repeat, extend) against the last "
     "clock value it has seen; without retro every operation raises TimerRetroError until the clock has caught up with "
     "that value, and the failed operation leaves start/stop/duration unchanged",
-    "backward jumps of a compensating MonoTimer's clock are limited so that the shifted start stays >= 0 (restart() "
-    "applies abs() to start; real time.time() values are ~1e9 so this never matters outside the small test clock)",
+    "in two thirds of the MonoTimer(retro) histories backward jumps are limited so that the shifted start stays >= 0 "
+    "(restart() applies abs() to start; real time.time() values are ~1e9 so this never matters outside the small test "
+    "clock); in the remaining third jumps are unlimited and extend()/repeat() are not driven while the compensated "
+    "start/stop is negative (reads and plain restarts are)",
     "restart(start=s) takes s in the current clock domain; repeat()/extend() of a compensating MonoTimer first apply a "
     "pending backward jump and then restart from the (shifted) previous stop / keep the (shifted) start",
 ]
@@ -137,6 +139,8 @@ class Model(object):
 class Feats(object):
     def __init__(self):
         self.back = False
+        self.negative_start = False
+        self.skipped_abs = 0
         self.back_observed = False
         self.pending_back_mutation = False
         self.repeat_expired = False
@@ -228,7 +232,7 @@ def _drive(case, kind, real, m, fake, store, feats, M):
                 new = max(0.0, old - float(op[1]))
             else:
                 new = float(op[1])
-            if m.retro and new < m.latest:
+            if m.retro and new < m.latest and not case.get("deep"):
                 # keep the compensated start non-negative: restart() applies abs() to its start argument (harmless
                 # for time.time() ~ 1e9, but on this small clock a shifted start below zero would be flipped)
                 new = max(new, m.latest - m.start)
@@ -239,6 +243,15 @@ def _drive(case, kind, real, m, fake, store, feats, M):
             _set_clock(kind, fake, store, m, new, "adv" if name == "adv" else "set")
             continue
         pending_back = m.mono and m.now < m.latest
+        if case.get("deep") and m.retro:
+            # histories with unlimited backward jumps: the compensated start (stop) may be negative; reads and plain
+            # restarts are well defined then, but extend() / repeat() pass it through restart()'s abs(): not driven
+            shift = min(0.0, m.now - m.latest)
+            if m.start + shift < 0:
+                feats.negative_start = True
+            if (name == "extend" and m.start + shift < 0) or (name == "repeat" and m.stop + shift < 0):
+                feats.skipped_abs += 1
+                continue
         if feats.back:
             feats.back_observed = True      # a timer operation runs after the clock has gone backwards
         calls = []
@@ -338,8 +351,9 @@ def case_strategy(kind):
     clock0 = st.one_of(st.just(0.0), grid(0, 40), grid(990, 1010))
     duration = st.one_of(st.just(0.0), small, small, grid(0, 100))
     ops = st.one_of(st.lists(op, min_size=1, max_size=8), st.lists(op, min_size=9, max_size=40))
-    return st.builds(lambda c, d, o: {"kind": kind, "clock0": c, "duration": d, "ops": [list(x) for x in o]},
-                     clock0, duration, ops)
+    deep = st.sampled_from([False, False, True]) if kind == "monoretro" else st.just(False)
+    return st.builds(lambda c, d, o, dp: {"kind": kind, "clock0": c, "duration": d, "ops": [list(x) for x in o], "deep": dp},
+                     clock0, duration, ops, deep)
 
 
 def outcome(case):
@@ -350,7 +364,8 @@ def outcome(case):
     cls = [kind, "%s/len%s" % (kind, "<=8" if n <= 8 else "<=40")]
     for flag, label in ((feats.back_observed, "operation-after-backward-jump"), (feats.repeat_expired, "repeat-after-expiry"),
                         (feats.retro_error, "TimerRetroError-expected"), (feats.standstill, "standstill"),
-                        (feats.pending_back_mutation, "repeat/extend-with-unobserved-back-jump")):
+                        (feats.pending_back_mutation, "repeat/extend-with-unobserved-back-jump"),
+                        (feats.negative_start, "compensated-start-below-zero")):
         if flag:
             cls.append("%s/%s" % (kind, label))
     return Outcome(fails, nontrivial=nt, classes=cls, key=case, sample=case)
